@@ -107,6 +107,25 @@ Theorem C02_refuted_hw_truncation_fallback :
 Proof. exact fallback_loses_committed. Qed.
 Print Assumptions C02_refuted_hw_truncation_fallback.
 
+(* Re-admission to the in-sync set.  The leader's tick (server/replicator.go) adds a replica back
+   when it was seen, and at the log end, at some moment within the last max-lag interval.  Adding a
+   reconciled replica that holds everything committed keeps the invariant; the time rule admits
+   more, and the current code is refuted (open finding; replayed on the real leader with its real
+   timers by TestVerifC02ExpandByTime). *)
+Theorem C02_readmission_safe_when_replica_holds_committed : forall c r, Inv c -> In r (c_synced c) ->
+  (length (c_committed c) <= length (log_of c r))%nat -> Inv (expand_behind c r).
+Proof. exact expand_behind_inv. Qed.
+Print Assumptions C02_readmission_safe_when_replica_holds_committed.
+
+Theorem C02_refuted_readmission_by_time :
+  let c := frun (init_cluster [0; 1; 2]%N 0%N 4%N 1)
+                [FBase (KPublish 0); FBase (KFetch 2 1); FBase (KFetch 2 0); FBase (KShrink 2);
+                 FBase (KPublish 1); FBase (KPublish 2); FBase (KFetch 1 3); FBase (KFetch 1 0);
+                 FExpandBehind 2; FBase (KElect 2 5)]%N in
+  c_committed c = [(4, 0); (4, 1); (4, 2)]%N /\ c_leader c = 2%N /\ log_of c 2%N = [(4, 0)]%N /\ committed_lost c = true.
+Proof. exact expansion_by_time_loses_committed. Qed.
+Print Assumptions C02_refuted_readmission_by_time.
+
 (* The pinned code, refuted twice. *)
 Theorem C02_refuted_epoch_boundary :
   let '(log, c) := crun false [CElect 4; CAppend [(4, 0); (4, 1); (4, 2)]; CTruncate 2; CAppend [(5, 10); (5, 11)]; CElect 6]%N in
